@@ -169,7 +169,7 @@ func (m *Message) decodePayload() error {
 		m.Payload = p
 		return nil
 	case CMDMerkleBlock:
-		p = &payload.MerkleBlock{}
+		p = &payload.MerkleBlock{Header: &block.Header{StateRootEnabled: m.StateRootInHeader}}
 	case CMDPing, CMDPong:
 		p = &payload.Ping{}
 	case CMDNotFound:
